@@ -307,7 +307,12 @@ func c05Run(c Case) (Result, error) {
 		switch in.Kind {
 		case "sk":
 			kind, expected = "KSk", 32
-			sk, err := crypto.DecodePrivateKey(crypto.BLSBLS12381, b)
+			// decoded objects are values: the caller's buffer is overwritten before the object is used
+			bb := append([]byte{}, b...)
+			sk, err := crypto.DecodePrivateKey(crypto.BLSBLS12381, bb)
+			for i := range bb {
+				bb[i] ^= 0xff
+			}
 			if err == nil {
 				ok, reenc = true, sk.Encode()
 			} else if !crypto.IsInvalidInputsError(err) {
@@ -318,9 +323,17 @@ func c05Run(c Case) (Result, error) {
 			if in.Kind == "pkzcash" {
 				kind = "KPkZcashProbe"
 			}
-			pk, err := crypto.DecodePublicKey(crypto.BLSBLS12381, b)
+			bb, bb2 := append([]byte{}, b...), append([]byte{}, b...)
+			pk, err := crypto.DecodePublicKey(crypto.BLSBLS12381, bb)
 			// the two decoders are called independently: same verdict, same error class, Equal keys
-			pk2, err2 := crypto.DecodePublicKeyCompressed(crypto.BLSBLS12381, append([]byte{}, b...))
+			pk2, err2 := crypto.DecodePublicKeyCompressed(crypto.BLSBLS12381, bb2)
+			// decoded objects are values: both input buffers are overwritten before the objects are used
+			for i := range bb {
+				bb[i] ^= 0xff
+			}
+			for i := range bb2 {
+				bb2[i] = byte(i)
+			}
 			if (err == nil) != (err2 == nil) {
 				routeComplaint = fmt.Sprintf("DecodePublicKey accepted=%v but DecodePublicKeyCompressed accepted=%v", err == nil, err2 == nil)
 			} else if err2 != nil && !crypto.IsInvalidInputsError(err2) {
